@@ -96,6 +96,10 @@ def misuse_battery(seed):
         {"op": "P.Equal", "args": ["a", "b"], "init": {"a": Z, "b": g()}}, {"op": "P.Equal", "args": ["a", "b"], "init": {"a": g(), "b": Z}},
         {"op": "P.Bytes", "args": ["a"], "init": {"a": Z}}, {"op": "P.BytesMontgomery", "args": ["a"], "init": {"a": Z}}, {"op": "P.ExtendedCoordinates", "args": ["a"], "init": {"a": Z}},
         {"op": "P.ScalarMult", "args": ["v", "k", "a"], "init": {"v": g(), "k": k(), "a": Z}},
+        {"op": "P.ScalarMult", "args": ["v", "k", "a"], "init": {"v": g(), "k": ptreplay.scalar_words(0), "a": Z}},
+        {"op": "P.ScalarMult", "args": ["v", "k", "a"], "init": {"v": g(), "k": ptreplay.scalar_words(1), "a": Z}},
+        {"op": "P.VarTimeDoubleScalarBaseMult", "args": ["v", "k", "a", "k2"], "init": {"v": g(), "k": ptreplay.scalar_words(0), "a": Z, "k2": k()}},
+        {"op": "P.VarTimeDoubleScalarBaseMult", "args": ["v", "k", "a", "k2"], "init": {"v": g(), "k": ptreplay.scalar_words(0), "a": Z, "k2": ptreplay.scalar_words(0)}},
         {"op": "P.VarTimeDoubleScalarBaseMult", "args": ["v", "k", "a", "k2"], "init": {"v": g(), "k": k(), "a": Z, "k2": k()}},
     ]
     for op in ("P.MultiScalarMult", "P.VarTimeMultiScalarMult"):
@@ -106,6 +110,12 @@ def misuse_battery(seed):
                     init["k%d" % j] = k()
                     init["q%d" % j] = Z if j == bad else g()
                 ops.append({"op": op, "args": ["v", "|".join("k%d" % j for j in range(n)), "|".join("q%d" % j for j in range(n))], "init": init})
+                # special scalar values at the position of the uninitialized point (a term that "contributes nothing" must
+                # still be guarded): 0, 1, l-1
+                for kv in (0, 1, ref.L - 1):
+                    init2 = dict(init)
+                    init2["k%d" % bad] = ptreplay.scalar_words(kv)
+                    ops.append({"op": op, "args": ["v", "|".join("k%d" % j for j in range(n)), "|".join("q%d" % j for j in range(n))], "init": init2})
         for ns, np_ in ((0, 1), (1, 0), (2, 1), (1, 2), (3, 2)):
             init = {"v": g()}
             for j in range(max(ns, np_)):
